@@ -43,6 +43,13 @@ def cases(tier, seed):
                 continue
             for r in range(reps if fam == "gen" else max(1, reps // 2)):
                 out.append(dict(kind="routing", cfg=cfg, family=fam, B=12, s=rnd.randrange(10**6)))
+    if tier == "quick":
+        for cfg in [c for c in envzoo.routing_configs((50,)) if not (c.get("vcap") or c.get("prize_required") or c.get("dense") or c.get("speed"))] + [c for c in envzoo.routing_configs((100,)) if c["env"] in ("tsp", "cvrp", "op")]:
+            if cfg["env"] in CHECKED and (cfg["env"] != "mtvrp" or cfg.get("preset") in ("all", "ovrpbltw", "ovrp", "ovrpl")):
+                out.append(dict(kind="routing", cfg=cfg, family="gen", B=4, s=rnd.randrange(10**6)))
+    for n in ((50, 100) if tier == "quick" else ()):
+        out.append(dict(kind="improve", cfg=dict(env="tsp_kopt", n=n, k=2), B=4, s=rnd.randrange(10**6), steps=2))
+        out.append(dict(kind="improve", cfg=dict(env="pdp_ruin_repair", n=n), B=4, s=rnd.randrange(10**6), steps=2))
     for n in ((5, 8, 12) if tier == "quick" else (4, 5, 6, 8, 10, 20, 50)):
         for k in (2, 3, 4):
             if k >= n - 1:
